@@ -2636,12 +2636,22 @@ def namespace_to_flowir(
 
 
         match = pattern_name.fullmatch(name)
+        if match is None:
+            # VV: e.g. the name of the step ends with a digit - that is reserved for the replicas of components
+            errors.append(experiment.model.errors.DSLInvalidFieldError(
+                location=comp.scope.dsl_location(),
+                underlying_error=ValueError(f"Step name \"{name}\" cannot be used as the name of a component, "
+                                            f"it must match the pattern {SignatureNamePattern}")))
+            continue
         match_groups = match.groupdict()
 
         uid_to_name[tuple(comp.scope.location)] = (int(match_groups.get("stage") or 0), match_groups["name"])
 
         comp.flowir['name'] = uid_to_name[tuple(comp.scope.location)][1]
         comp.flowir['stage'] = uid_to_name[tuple(comp.scope.location)][0]
+
+    if errors:
+        raise experiment.model.errors.DSLInvalidError.from_errors(errors)
 
     complete = experiment.model.frontends.flowir.FlowIRConcrete(
         flowir_0={},
